@@ -67,7 +67,14 @@ class KeySpec(object):
         if not (isinstance(n.target, ast.Name) and ex.is_kind(st, itv, 'list', 'set')):
             return None
         xs = st.seq(itv); args = st.lookup('args'); kwargs = st.lookup('kwargs')
-        akeys, kkeys = st.lookup('args_for_keys'), st.lookup('kwargs_for_key')
+        # the two accumulators are identified by what they are -- the list and the dict this activation allocated before the loop -- not by
+        # their local names (a renamed local must not change the verdict)
+        fr = st.frames[st.stack[-1]]
+        news = [v for k_, v in fr.items() if k_ not in ('args', 'kwargs') and z3.is_expr(v) and st.entails(z3.And(Val.is_ref(v), Val.addr(v) >= BASE))]
+        lists = [v for v in news if ex.is_kind(st, v, 'list')]; dicts = [v for v in news if ex.is_kind(st, v, 'dict')]
+        if len(lists) != 1 or len(dicts) != 1:
+            raise Unsupported('capture loop: expected one list and one dict accumulator allocated before the loop, found %d / %d' % (len(lists), len(dicts)))
+        akeys, kkeys = lists[0], dicts[0]
         aseq = st.seq(args); kdom, kmap = st.dcontents(kwargs)
 
         def name(s, x): return s.rd(x, 'name')
@@ -103,6 +110,56 @@ def template(alias, a, dom, mp):
     return z3.Concat(z3.StringVal('input: '), Val.sv(alias), z3.StringVal(' args='), ENCL(a), z3.StringVal(', kwargs='), ENCD(dom, mp))
 
 
+LAYOUTS = set()
+
+
+def decompose(term, st=None):
+    """flatten a string term into constant pieces ('lit', text) and fields ('fld', term); conditionals decided by the path condition are resolved"""
+    out = []
+
+    def walk(x):
+        if st is not None and z3.is_app(x) and x.decl().kind() == z3.Z3_OP_ITE and x.num_args() == 3:
+            c = x.arg(0)
+            if st.entails(c):
+                return walk(x.arg(1))
+            if st.entails(z3.Not(c)):
+                return walk(x.arg(2))
+        if z3.is_app(x) and x.decl().kind() == z3.Z3_OP_SEQ_CONCAT:
+            for c in x.children():
+                walk(c)
+        elif z3.is_string_value(x):
+            if out and out[-1][0] == 'lit':
+                out[-1] = ('lit', out[-1][1] + x.as_string())
+            else:
+                out.append(('lit', x.as_string()))
+        else:
+            out.append(('fld', x))
+    walk(z3.simplify(term)); return out
+
+
+def layout_of(s, result, alias):
+    """(('lit', text) | 'alias' | 'args' | 'kwargs', ...) and the field terms, or None when the result is not of that shape"""
+    if not s.entails(Val.is_s(result)):
+        return None
+    pieces = decompose(Val.sv(result), s); names = []; flds = {}
+    for kind, x in pieces:
+        if kind == 'lit':
+            names.append(('lit', x)); continue
+        d = x.decl().name() if z3.is_app(x) else ''
+        nm = 'args' if d == 'enc_list' else 'kwargs' if d == 'enc_sorted_items' else 'alias'
+        if nm in flds:
+            return None
+        flds[nm] = x; names.append(nm)
+    if set(flds) != {'alias', 'args', 'kwargs'}:
+        return None
+    return tuple(names), flds
+
+
+def key_layouts():
+    """the layouts of the key text found on the current tree (one, unless the function builds different texts on different paths)"""
+    LAYOUTS.clear(); input_key(); return set(LAYOUTS)
+
+
 def input_key(props=None):
     repo = Repo(); spec = KeySpec(); ex = lib.install(Exec(repo, spec))
     m, cls, node, info = repo.find(TR + '_input_interception_key')
@@ -134,8 +191,17 @@ def input_key(props=None):
         A = z3.If(none_case, A_all, z3.If(z3.Length(capseq) == 0, z3.Empty(SeqV), SELPOS(capseq)))
         KD = z3.If(none_case, kd0, z3.If(z3.Length(capseq) == 0, z3.K(Val, False), SELKD(capseq)))
         KM = z3.If(none_case, km0, z3.If(z3.Length(capseq) == 0, z3.K(Val, NONE), SELKM(capseq)))
-        obl.append(Obl('C06/%s/result_is_template_of_alias_and_captured_values' % U, 'C06', s,
-                       z3.And(Val.is_s(oc[1]), Val.sv(oc[1]) == template(alias, A, KD, KM)), oc))
+        # the key text is not fixed by the property: the result must be a concatenation of CONSTANT pieces and exactly the three fields alias,
+        # ENCL(captured positionals), ENCD(captured keywords) -- whatever the constant pieces are (their injectivity is a separate lemma over the
+        # pieces found here).  Any other shape falls back to the exact template of the pinned commit.
+        lay = layout_of(s, oc[1], alias)
+        if lay is not None:
+            names, flds = lay; LAYOUTS.add(names)
+            cl = z3.And(Val.is_s(oc[1]), flds['alias'] == Val.sv(alias), flds['args'] == ENCL(A), flds['kwargs'] == ENCD(KD, KM))
+        else:
+            LAYOUTS.add(None)
+            cl = z3.And(Val.is_s(oc[1]), Val.sv(oc[1]) == template(alias, A, KD, KM))
+        obl.append(Obl('C06/%s/result_is_template_of_alias_and_captured_values' % U, 'C06', s, cl, oc))
     obl += [Obl('C06/%s/%s' % (U, a), 'C06', s_, c, oc_) for a, s_, c, oc_ in ex.obligations]
     return [info], obl, {'paths': len(paths), 'forks': ex.forks}
 
@@ -198,19 +264,37 @@ def lemmas(props=None):
     out = []
     # C06/injective: for aliases that do not contain " args=", and encodings of lists forming a prefix-free set (A1: a JSON array text is
     # self-delimiting), equal keys imply equal alias, equal encoded positional part and equal encoded keyword part.
+    lays = key_layouts(); pre_texts = []
+    if len(lays) != 1 or None in lays:
+        # not one constant layout: the exact template of the pinned commit was demanded by the unit instead; the lemma is stated over that template
+        lays = {(('lit', 'input: '), 'alias', ('lit', ' args='), 'args', ('lit', ', kwargs='), 'kwargs')}
+    lay = list(lays)[0]
+    q = lambda t: '"' + t.replace('"', '""') + '"'
+    var = {'alias': 'a', 'args': 'x', 'kwargs': 'u'}
+    hyp_alias = ''; hyp = ''
+    for i, pc in enumerate(lay):
+        nxt = lay[i + 1] if i + 1 < len(lay) else None
+        if pc == 'alias' and nxt is not None and nxt[0] == 'lit' and nxt[1]:
+            hyp_alias = '(assert (not (str.contains a1 %s))) (assert (not (str.contains a2 %s)))' % (q(nxt[1]), q(nxt[1]))
+            pre_texts.append('input aliases do not contain %r' % nxt[1])
+        if pc in ('args', 'kwargs') and nxt is not None:
+            v = var[pc]
+            hyp += '; A1: the encoding of a list is a JSON array text: self-delimiting, so the set of encodings is prefix-free\n'
+            hyp += '(assert (=> (str.prefixof %s1 %s2) (= %s1 %s2))) (assert (=> (str.prefixof %s2 %s1) (= %s1 %s2)))\n' % ((v,) * 8)
+    side = lambda n: '(str.++ ' + ' '.join(q(pc[1]) if isinstance(pc, tuple) else var[pc] + n for pc in lay) + ' "")'
     inj = PRE + """
 (declare-fun a1 () String) (declare-fun a2 () String) (declare-fun x1 () String) (declare-fun x2 () String) (declare-fun u1 () String) (declare-fun u2 () String)
-(assert (not (str.contains a1 " args="))) (assert (not (str.contains a2 " args=")))
-; A1: list encodings are JSON array texts: prefix-free
-(assert (=> (str.prefixof x1 x2) (= x1 x2))) (assert (=> (str.prefixof x2 x1) (= x1 x2)))
-(assert (= (str.++ "input: " a1 " args=" x1 ", kwargs=" u1) (str.++ "input: " a2 " args=" x2 ", kwargs=" u2)))
+%s
+%s
+(assert (= %s %s))
 (assert (not (and (= a1 a2) (= x1 x2) (= u1 u2))))
 (check-sat)
-"""
+""" % (hyp_alias, hyp, side('1'), side('2'))
     out.append(smt.lemma('C06/lemma/input_key_template_injective', 'C06', inj, timeout=120, order=('cvc5', 'z3')))
     # canary: without the alias precondition the lemma must fail (vacuity guard for the hypothesis set)
-    can = inj.replace('(assert (not (str.contains a1 " args="))) (assert (not (str.contains a2 " args=")))', '')
-    out.append(smt.lemma('C06/lemma/input_key_template_injective.canary_needs_alias_precondition', 'C06', can, expect='sat', timeout=120, order=('cvc5', 'z3')))
+    if hyp_alias:
+        can = inj.replace(hyp_alias, '')
+        out.append(smt.lemma('C06/lemma/input_key_template_injective.canary_needs_alias_precondition', 'C06', can, expect='sat', timeout=120, order=('cvc5', 'z3')))
     # C03/key_injective: (alias, n) -> "output: " + alias + " #" + str(n) is injective (str(n): a non-empty digit string, E4)
     outk = PRE + """
 (declare-fun a1 () String) (declare-fun a2 () String) (declare-fun d1 () String) (declare-fun d2 () String)
@@ -225,9 +309,9 @@ def lemmas(props=None):
     shape = PRE + """
 (declare-fun a () String) (declare-fun d () String) (declare-fun r () String)
 (define-fun extracted ((k String)) Bool (and (str.prefixof "output:" k) (not (str.suffixof "result" k))))
-(assert (not (and (extracted (str.++ "output: " a " #" d ".output")) (not (extracted (str.++ "output: " a " #" d ".result"))) (not (extracted (str.++ "input: " r))))))
+(assert (not (and (extracted (str.++ "output: " a " #" d ".output")) (not (extracted (str.++ "output: " a " #" d ".result"))) (not (extracted (str.++ %s r))))))
 (check-sat)
-"""
+""" % (q(lay[0][1]) if isinstance(lay[0], tuple) else '""')          # input keys start with the constant piece found by the input-key unit
     out.append(smt.lemma('C03/lemma/extraction_predicate_selects_output_entries_only', 'C03', shape, timeout=60, order=('z3', 'cvc5')))
     # C18: the operation's output entry is what _add_post_operation_metadata looks for (used as an opaque fact by the wrapper units)
     opk = PRE + """
@@ -238,4 +322,5 @@ def lemmas(props=None):
 """
     for P in ('C18', 'C05'):
         out.append(smt.lemma('%s/lemma/operation_key_is_recognised' % P, P, opk, timeout=60, order=('z3', 'cvc5')))
-    return {'results': out, 'assumptions': ['E4 str(int) is a non-empty decimal digit string', 'A1 encodings of lists are self-delimiting JSON texts (prefix-free)']}
+    return {'results': out, 'assumptions': ['E4 str(int) is a non-empty decimal digit string', 'A1 encodings of lists are self-delimiting JSON texts (prefix-free)'] +
+            ['precondition (C06 injectivity): ' + t for t in pre_texts]}
